@@ -34,6 +34,14 @@ theorem stable_null_zero (env : Env) (fmt : Fmt) (L : Leaves) : ∀ (f : Nat) (t
           | some e => simp only [hn] at h ⊢; exact ih e h
           | none => simp [hn] at h
 
+theorem keyed_rendered (fmt : Fmt) (fd : FieldDesc) (hk : keyed fmt fd = true) : rendered fd = true := by
+  obtain ⟨gn, ty, ex, yk, ys, yo, yi, jk, js, jo⟩ := fd
+  cases fmt <;> cases ex <;> cases ys <;> cases js <;> simp_all [keyed, skipOf, rendered]
+
+theorem notskip_rendered (fmt : Fmt) (fd : FieldDesc) (hk : skipOf fmt fd = false) : rendered fd = true := by
+  obtain ⟨gn, ty, ex, yk, ys, yo, yi, jk, js, jo⟩ := fd
+  cases fmt <;> cases ex <;> cases ys <;> cases js <;> simp_all [skipOf, rendered]
+
 theorem generic_roundtrip_aux (env : Env) (fmt : Fmt) (L : Leaves) (hL : LeafSound env fmt L) :
     ∀ (f : Nat) (ty : TyExpr) (v : Val),
     plainB env fmt L.names f ty = true → Stable env fmt L f ty v → RT env fmt f ty v := by
@@ -118,7 +126,8 @@ theorem generic_roundtrip_aux (env : Env) (fmt : Fmt) (L : Leaves) (hL : LeafSou
         -- facts about a rendered field, from `plainB`
         have hfd : ∀ fd ∈ s.fields, rendered fd = true →
             fd.yamlSkip = false ∧
-            (fd.yamlInline = true → zeroVal env f fd.ty = .null ∧ (fmt = .yaml ∨ skipOf fmt fd = true)) ∧
+            (fd.yamlInline = true → zeroVal env f fd.ty = .null ∧ (fmt = .yaml ∨ skipOf fmt fd = true) ∧
+              fd.yamlKey ∉ (s.fields.filter (keyed fmt)).map (keyOf fmt)) ∧
             (fd.yamlInline = false → skipOf fmt fd = false ∧ keyOf fmt fd = fd.yamlKey ∧ plainB env fmt L.names f fd.ty = true) := by
           intro fd hm hr
           rcases hflds fd hm with h | h
@@ -126,32 +135,28 @@ theorem generic_roundtrip_aux (env : Env) (fmt : Fmt) (L : Leaves) (hL : LeafSou
           · refine ⟨h.1, ?_, ?_⟩
             · intro hi
               have := h.2
-              simp only [hi, if_true, Bool.and_eq_true, Bool.or_eq_true, beq_iff_eq] at this
-              exact ⟨isNull_eq this.1, this.2⟩
+              simp only [hi, if_true, Bool.and_eq_true, Bool.or_eq_true, beq_iff_eq, Bool.not_eq_true',
+                List.contains_eq_mem, decide_eq_false_iff_not] at this
+              exact ⟨isNull_eq this.1.1, this.1.2, this.2⟩
             · intro hi
               have := h.2
               simp only [hi, Bool.false_eq_true, if_false, Bool.and_eq_true, Bool.not_eq_true', beq_iff_eq] at this
               exact ⟨this.1.1, this.1.2, this.2⟩
         have hkeyed_facts : ∀ fd ∈ s.fields, keyed fmt fd = true → rendered fd = true ∧ fd.yamlInline = false := by
           intro fd hm hk
-          have hr : rendered fd = true := by
-            obtain ⟨gn, ty, ex, yk, ys, yo, yi, jk, js, jo⟩ := fd
-            cases fmt <;> cases ex <;> cases ys <;> cases js <;> simp_all [keyed, skipOf, rendered]
+          have hr : rendered fd = true := keyed_rendered fmt fd hk
           refine ⟨hr, ?_⟩
           cases hi : fd.yamlInline with
           | false => rfl
           | true =>
-            rcases ((hfd fd hm hr).2.1 hi).2 with hy | hsk
+            rcases ((hfd fd hm hr).2.1 hi).2.1 with hy | hsk
             · subst hy; simp [keyed, hi] at hk
             · simp [keyed, hsk] at hk
         obtain ⟨fs, hfsd⟩ : ∃ fs, fs = (s.fields.filter rendered).map (fun fd => (fd.goName, vals fd)) := ⟨_, rfl⟩
         rw [← hfsd] at hfield
         have hni : NoInline fmt s.fields fs := by
           intro fd hm hsk hy hi
-          have hr : rendered fd = true := by
-            subst hy
-            obtain ⟨gn, ty, ex, yk, ys, yo, yi, jk, js, jo⟩ := fd
-            cases ex <;> cases ys <;> simp_all [skipOf, rendered]
+          have hr : rendered fd = true := notskip_rendered fmt fd hsk
           rw [hfield fd hm hr]
           exact (hvals fd hm hr).1 hi
         have homit : ∀ fd ∈ s.fields, rendered fd = true →
@@ -175,10 +180,12 @@ theorem generic_roundtrip_aux (env : Env) (fmt : Fmt) (L : Leaves) (hL : LeafSou
           obtain ⟨hsk, hinl, hpl⟩ := hfd fd hm hr
           unfold fieldDecoded
           by_cases hi : fd.yamlInline = true
-          · simp only [hsk, hi, Bool.or_true, if_true, (hinl hi).1, (hvals fd hm hr).1 hi]
+          · have hnk : Val.lookup fd.yamlKey out = none :=
+              lookup_none_of_not_mem (fun hmem => (hinl hi).2.2 (encodeFields_keys fmt _ _ s.fields fs out hni hout _ hmem))
+            simp only [hsk, Bool.false_eq_true, if_false, hnk, (hinl hi).1, (hvals fd hm hr).1 hi]
           · have hi' : fd.yamlInline = false := by simpa using hi
             obtain ⟨hnsk, hkey, hplain⟩ := hpl hi'
-            simp only [hsk, hi', Bool.or_false, Bool.false_eq_true, if_false]
+            simp only [hsk, Bool.false_eq_true, if_false]
             have hk : keyed fmt fd = true := by
               simp [keyed, hnsk, hi']
             rcases hrend fd hm hk with ⟨hom, hl⟩ | ⟨hom, t, he, hl⟩
